@@ -668,3 +668,24 @@ func (ex *Exec) unpackAny(anyP Ptr, target Value, fr *Frame) Value {
 func (e *EngineErr) Error() string { return e.Msg }
 
 var _ = fmt.Sprint
+
+func init() {
+	reg := func(name string, f intrinsic) { intrinsics[name] = f }
+	reg(sdkTypes+".WrapSDKContext", func(ex *Exec, a []Value, _ *Frame) Value {
+		return Iface{T: types.NewPointer(ex.namedType("context", "valueCtx")), V: Opaque{Desc: "wrapped sdk.Context", Data: &wrappedCtx{a[0]}}}
+	})
+	reg(sdkTypes+".UnwrapSDKContext", func(ex *Exec, a []Value, _ *Frame) Value {
+		iv, ok := a[0].(Iface)
+		if ok {
+			if op, ok := iv.V.(Opaque); ok {
+				if w, ok := op.Data.(*wrappedCtx); ok {
+					return w.ctx
+				}
+			}
+		}
+		ex.goPanic("interface conversion: context value is not an sdk.Context")
+		return nil
+	})
+}
+
+type wrappedCtx struct{ ctx Value }
